@@ -41,6 +41,7 @@ class Ctx:
         self.mulwit = []
         self.memo = {}
         self.cuts = {}
+        self.loop_cuts = {}
         self.cuts_fired = set()
         self.products = {}
         self.product_terms = {}
@@ -719,6 +720,17 @@ class Executor:
             if not phis_done and pred is not None:
                 self.do_phis(fr, blk, pred)
             phis_done = False
+            if ctx.loop_cuts:
+                lc = ctx.loop_cuts.get(fr.fname)
+                if lc is not None and blk in lc:
+                    # loop-invariant cut (Floyd/Hoare): every arrival at the header asserts the invariant; the first
+                    # arrival on a path continues from an arbitrary state satisfying it, later arrivals end the path
+                    k = ("LC", fr.id, blk)
+                    first = not self.store.get(k, False)
+                    self.write(k, True)
+                    lc[blk](self, fr, blk, first)
+                    if not first:
+                        raise PathDead()
             instrs = b["instrs"]
             for i in range(b["_nphi"], len(instrs) - 1):
                 step(self, fr, instrs[i])
@@ -731,7 +743,7 @@ class Executor:
             if op == "Return":
                 vals = tuple(self.val(fr, r) for r in term["results"])
                 self.write(("R", fr.id, "$ret", fn.get("results")), vals)
-                if fr.defers:
+                if self.store.get(("D", fr.id)):
                     raise Unsupported("return with pending defers")
                 if stop != EXIT:
                     raise Unsupported("internal: return inside region not ending at exit")
